@@ -51,7 +51,7 @@ func collect2[T any](seq iter.Seq2[T, error], render func(T) string, horizon int
 	})
 	// A consumer may keep the records it was handed: render every retained record again after the
 	// iteration is over. A reader that reuses a buffer for the next record shows here.
-	if len(vals) <= 4096 {
+	if len(vals) <= 1<<16 {
 		for i, v := range vals {
 			if !isRec[i] {
 				continue
@@ -87,6 +87,11 @@ func renderObs(items []obsItem) string {
 
 // sameShape compares two observations: same number of items, records equal position-wise,
 // errors in the same positions (error texts are not compared).
+// strictErrTexts: error items are equal only if their texts are. Set by C06, where both sides of every
+// comparison are real decodes of the same bytes (the pinned tree's error texts are a function of the bytes
+// alone); left off where one side is built from a model that knows positions of errors but not their wording.
+var strictErrTexts bool
+
 func sameShape(a, b []obsItem) bool {
 	if len(a) != len(b) {
 		return false
@@ -102,6 +107,9 @@ func sameShape(a, b []obsItem) bool {
 	}
 	for i := range a {
 		if a[i].IsErr() != b[i].IsErr() {
+			return false
+		}
+		if strictErrTexts && a[i].IsErr() && a[i].Err != b[i].Err {
 			return false
 		}
 		if !a[i].IsErr() && a[i].Rec != b[i].Rec {
